@@ -59,6 +59,7 @@ type Cfg struct {
 	ProxyTimeoutMs int    `json:"proxyTimeoutMs,omitempty"`
 	Store          string `json:"store,omitempty"` // "", "mem", "lazy" (ignores TTLs), "fault"
 	TwoServers     bool   `json:"twoServers,omitempty"`
+	SharedCache    bool   `json:"sharedCache,omitempty"` // both servers are bound to the first cache
 }
 
 type Outcome struct {
@@ -205,7 +206,7 @@ func applyCfgExtra(cfg Cfg, tag string, extra bool) (cacheNames [2]string) {
 	location.Reset([]config.LocationConfig{loc})
 	server.Reset([]config.ServerConfig{
 		{Addr: srvAddr1, Locations: []string{"simloc"}, Cache: cacheNames[0]},
-		{Addr: srvAddr2, Locations: []string{"simloc"}, Cache: cacheNames[1]},
+		{Addr: srvAddr2, Locations: []string{"simloc"}, Cache: cacheNames[map[bool]int{true: 0, false: 1}[cfg.SharedCache]]},
 	})
 	return
 }
@@ -234,6 +235,7 @@ type clientRec struct {
 	ID        int
 	Key       int
 	Srv       int
+	Cache     int // index of the cache the server is bound to
 	Op        Op
 	StartMs   int64
 	EndMs     int64
@@ -257,6 +259,7 @@ type clientRec struct {
 }
 
 type world struct {
+	shared    bool
 	tag       string
 	mu        sync.Mutex
 	t0        time.Time
@@ -320,7 +323,7 @@ func yieldPoint(name string) {
 			}
 		}
 		for _, o := range w.clients {
-			if o.ID != c.ID && o.Srv == c.Srv && o.Key == c.Key && !o.Done && o.parkCh == nil && !pend[o.ID] {
+			if o.ID != c.ID && o.Cache == c.Cache && o.Key == c.Key && !o.Done && o.parkCh == nil && !pend[o.ID] {
 				c.parkBits &^= bit
 				w.mu.Unlock()
 				return
@@ -502,6 +505,10 @@ func (w *world) startClient(op Op) *clientRec {
 	k := w.keys[op.Key%len(w.keys)]
 	w.mu.Lock()
 	c := &clientRec{ID: len(w.clients), Key: op.Key % len(w.keys), Srv: op.Srv & 1, Op: op, StartMs: w.nowMs(), Serial: -1, parkBits: op.Park}
+	c.Cache = c.Srv
+	if w.shared {
+		c.Cache = 0
+	}
 	w.clients = append(w.clients, c)
 	w.mu.Unlock()
 	go func() {
@@ -785,7 +792,7 @@ func runScenario(t *testing.T, sc Scenario, m *model) (tr *trace) {
 	}
 	caseSeq++
 	tag := strconv.Itoa(caseSeq)
-	w := &world{keys: sc.Keys, goids: map[int64]int{}, tag: tag}
+	w := &world{keys: sc.Keys, goids: map[int64]int{}, tag: tag, shared: sc.Cfg.SharedCache}
 	defer func() {
 		if r := recover(); r != nil {
 			tr.Deadlock = fmt.Sprint(r)
@@ -913,7 +920,7 @@ func (w *world) handover(opIdx int, m *model) {
 				continue
 			}
 			for _, o := range w.clients {
-				if o.parkCh != nil && o.parkedAt == "get.registered" && o.Srv == c.Srv && o.Key == c.Key {
+				if o.parkCh != nil && o.parkedAt == "get.registered" && o.Cache == c.Cache && o.Key == c.Key {
 					close(o.parkCh)
 					o.parkCh = nil
 					o.parkedAt = ""
@@ -969,7 +976,7 @@ func (w *world) execOp(i int, op Op, m *model, tr *trace) {
 			// all waiters parked at this point on the same key leave together (see yieldPoint)
 			group = group[:0]
 			for _, o := range parked {
-				if o.parkedAt == point && o.Srv == c.Srv && o.Key == c.Key {
+				if o.parkedAt == point && o.Cache == c.Cache && o.Key == c.Key {
 					group = append(group, o)
 				}
 			}
